@@ -336,6 +336,20 @@ def _emitted(ctx, d, pgpy):
                 ctx.fail('emitted-issuer-differs', {'who': who, 'issuer': hx(RS.issuer(ps) or b''), 'issuer_fpr': hx(RS.issuer_fpr(ps) or b''), 'expected': hx(exp)})
             if s.signer != exp.hex().upper()[-16:] or s.signer_fingerprint != exp.hex().upper():
                 ctx.fail('signature-signer-attribute', {'who': who, 'signer': s.signer})
+    # intended-recipient subpackets: one per recipient, each with that recipient's fingerprint, in the order given (keys and bare fingerprints)
+    rcp = [pool.pgpy_key('ed25519_3', uid='ir one').pubkey, pool.pgpy_key('rsa1024_2', uid='ir two').pubkey, pool.pgpy_key('ecdsa_p256_2', uid='ir three').pubkey]
+    want_ir = [RK.fpr_of(pool.mat(n_)) for n_ in ('ed25519_3', 'rsa1024_2', 'ecdsa_p256_2')]
+    for nrec in (1, 2, 3):
+        for as_fpr in (False, True):
+            lst = [(r_.fingerprint if as_fpr and j_ % 2 else r_) for j_, r_ in enumerate(rcp[:nrec])]
+            s = signer.sign('to several', intended_recipients=lst)
+            ps = RS.parse_sig(wire.split(bytes(s))[0].body)
+            got_ir = [bytes(b_[1:]) for b_ in RS.sp_get(ps, 35)]
+            ctx.count('emitted_fields')
+            ctx.count('intended_recipient_lists')
+            ctx.count('evaluations')
+            if got_ir != want_ir[:nrec] or any(bytes(b_[:1]) != b'\x04' for b_ in RS.sp_get(ps, 35)):
+                ctx.fail('emitted-recipient-differs', {'field': 'intended recipient fingerprints', 'got': [hx(x) for x in got_ir], 'expected': [hx(x) for x in want_ir[:nrec]], 'given_as_fingerprint_objects': as_fpr})
     em = pool.mat(d['enc'])
     rc = pool.pgpy_key('ed25519_2', sub=d['enc'], sub_usage={KeyFlags.EncryptCommunications, KeyFlags.EncryptStorage}, uid='recipient')
     esub_exp = RK.fpr_of(em)
